@@ -138,7 +138,8 @@ class C02(Property):
         for k in range(3):
             ops += [['set', 0, k, 1 + k], ['getitem', 0, k], ['del', 0, k], ['get', 0, k], ['setdefault', 0, k, 7],
                     ['pop', 0, k], ['pop', 0, k, 8]]
-        ops += [['popitem', 0], ['clear', 0], ['update', 0, 'dict', [[0, 4], [1, 5], [2, 6]], []],
+        ops += [['get', 0, 1, 5], ['setdefault', 0, 2], ['pop', 0, 0, 0], ['in', 0, 1], ['ne', 0, 'dict', [[2, 3]]],
+                ['popitem', 0], ['clear', 0], ['update', 0, 'dict', [[0, 4], [1, 5], [2, 6]], []],
                 ['update', 0, 'list', [[2, 4], [0, 5], [2, 6]], []], ['ior', 0, 'dict', [[1, 9], [2, 9]]],
                 ['ior', 0, 'self', []], ['eq', 0, 'dict', [[0, 1], [1, 2]]], ['copy', 0]]
         if with_copy:
@@ -186,7 +187,7 @@ class C02(Property):
                 for hist in itertools.product(alpha, repeat=n):
                     yield self.probe(self.normalize(dict(base, ops=[list(o) for o in hist])))
         # (2) sampled from the space of 3..4(5)-call histories, pre-filled caches
-        n_samp = 30000 if self.thorough else 2500
+        n_samp = 60000 if self.thorough else 18000
         for _ in range(n_samp):
             cls, mx, om = rng.choice(('LRI', 'LRU')), rng.choice((1, 2, 2, 3)), rng.choice((None, None, [2, 1]))
             alpha = self.small_alphabet(mx, True)
@@ -196,10 +197,10 @@ class C02(Property):
             yield self.probe(self.normalize({'cls': cls, 'max': mx, 'om': om, 'km': rng.choice('sn'), 'nk': 3,
                                              'init': init, 'ops': hist}))
         # (3) adversarial scripts
-        for c in self.adversarial(rng, 1500 if self.thorough else 250):
+        for c in self.adversarial(rng, 6000 if self.thorough else 1500):
             yield c
         # (4) random long histories
-        n_rand = 60000 if self.thorough else 1800
+        n_rand = 120000 if self.thorough else 8000
         for i in range(n_rand):
             yield self.random_case(rng, big=self.thorough and i % 8 == 0)
 
